@@ -675,14 +675,34 @@ func runFault(p faultParam, tag string) *runReport {
 					}
 				}
 			}
-			e.wait("every subscription on the failed connection to get its connection error", func() bool {
+			told := func() bool {
 				for _, v := range victims {
 					if !v.hasNonData() {
 						return false
 					}
 				}
 				return true
-			})
+			}
+			// the client itself has taken the failed connection(s) off its books
+			otherWS, otherSSE := map[string]bool{}, 0
+			for _, s := range others {
+				if s.tup.Transport == "ws" {
+					otherWS[s.tup.identity()] = true
+				} else {
+					otherSSE++
+				}
+			}
+			forgot := func() bool {
+				st := e.cl.Stats()
+				return st.WSConns <= len(otherWS) && st.SSEConns <= otherSSE
+			}
+			if e.note.until(stepWatchdog, func() bool { return told() || forgot() }) && !told() {
+				// deregistered but (not yet) told: a bounded grace, then the judge convicts (connerr.missing)
+				e.note.until(3*time.Second, told)
+			}
+			if !told() && !forgot() {
+				e.fail("watchdog", "the client to notice the failed connection")
+			}
 			for i := 0; i < p.After; i++ {
 				for _, s := range others {
 					e.srvSend(s, "next")
